@@ -27,6 +27,12 @@ CHECKS = {
  "C10": dict(level=MC, technique="TLA+ model (Engine.tla resume decision list + AssetFault actions) + replay incl. asset faults + trace validation (EngineTrace.tla)",
    text="The resume decision list (reject 101/102/103 before anything is touched; fail the session for missing flow, resume limit, vanished node, node without wait) is model checked with asset faults as independently enabled actions; behaviours including faults are replayed (assets rebuilt, session re-read) and TLC checks on every recorded call that a rejected resume left the session JSON byte-identical with no events and that impossible resumes end the session failed with a failure event.",
    note="Trusted: harness projection; byte comparison of json.Marshal(session) done in Go and logged as a boolean; fault kinds flow_gone/node_gone/wait_gone.", ref="4 C10"),
+ "C11": dict(level=MC, technique="TLA+ model of the expression printer and a reference precedence-climbing parser (Excellent.tla) checked by TLC; all trees within bounds printed, parsed and printed by the real code, evaluated before/after and through refactor.Template; validated by TLC (ExcellentTrace.tla)",
+   text="Excellent.tla defines Pr (String()), a reference parser for Excellent3.g4 and NormalForm; TLC proves Parse(Pr(t)) = t on every normal-form tree (depth 2 over all precedence levels, unary minus, parentheses, suffix chains, calls, anonymous functions), that printing is a fixed point, and that non-normal trees do NOT survive (so a dropped Paren node is a bug). Every tree is rendered in up to four literal spellings, parsed/printed/re-parsed by the real code, evaluated in five contexts before and after printing, and rewritten inside a template with the identity and with a rename (value compared with the renamed binding). The real printer is compared with the spec printer (drift). Random deeper expressions as direction B.",
+   note="Trusted: value comparison through JSON rendering + Go type. Literals ending in a backslash before another literal are a listed known finding (generated lexer).", ref="4 C11"),
+ "C12": dict(level=MC, technique="TLA+ model of the template scanner, strconv.Quote/Unquote and the TEXT lexer rule over character classes (Scanner.tla) checked by TLC; all class sequences within bounds evaluated by the real Evaluator.Template and scanned by the real XScanner; validated by TLC (ScannerTrace.tla)",
+   text="TLC proves on the reference model that every class sequence (quote, backslash, parens, @, other; length <= 3/5) written as a quoted literal is delimited by the scanner and read back by the lexer exactly, alone and next to another literal, and that body-only templates pass through modulo @@; negative runs show that the two modelled code deviations (scanner escape flag, lexer longest match) break exactly these invariants. All sequences are instantiated with six representatives for 'other' and evaluated by the real code; TLC compares outputs with the input strings / Unescape(body). The real scanner's token stream is compared with the reference scanner's on all 7k/66k bodies (drift).",
+   note="Trusted: class instantiation/decoding in the harness. Known finding: literal ending in a backslash before another literal (generated lexer).", ref="4 C12"),
  "C14": dict(level=MC, technique="TLA+ model of query trees, Format/Parse/Simplify and of the STRING lexer rule vs strconv.Quote (ContactQL.tla) checked by TLC; enumerated trees and adversarial values built/escaped, formatted and parsed by the real parser; structural comparisons by TLC (QLTrace.tla)",
    text="ContactQL.tla proves within bounds that Format/Parse/Simplify round-trip on all trees (depth 2, fan-out 3) and that a quoted value followed by more query text lexes to exactly that value for every class sequence over quote/backslash/other - and shows that the generated lexer's longest-match rule breaks this (negative run, known finding). Every enumerated tree (4 pools of concrete conditions) and value (13 instantiations, 4 template positions, constructors and ContactQueryEscaping) goes through the real Stringify/ParseQuery twice; TLC checks parsed = Simplify(built), parse(format(parse)) = parse and that an escaped value yields exactly the template's structure. Random query texts over the whole grammar (implicit conditions, aliases, implicit AND, both redaction policies) are round-tripped as direction B.",
    note="Trusted: tree extraction through public accessors. Violations for values ending in a backslash before another quoted literal are a listed known finding (generated lexer).", ref="4 C14"),
